@@ -34,7 +34,7 @@ class C11(PoolCheck):
     LEVEL = 'fault_enumeration'
     GROUP = 16
     CASE_TIMEOUT = 120.0
-    FAMILIES = ('ids', 'keys', 'xsitype', 'subst', 'fixed', 'wild', 'ns', 'mixed', 'assert11', 'recur', 'big')
+    FAMILIES = ('ids', 'keys', 'xsitype', 'subst', 'fixed', 'wild', 'ns', 'mixed', 'assert11', 'recur', 'big', 'idfields', 'shadow')
     CORPUS = False
     RULE = ("fault cases = (family, document, stream class or file, fault kind@offset [eof, flip, eio, seekfail, "
             "close], validation mode, eager/lazy, entry point); eof and flip are enumerated at EVERY byte offset of "
@@ -171,16 +171,25 @@ class C11(PoolCheck):
         ('xsitypeknown3', b'xsi:type="t:', b'xsi:type="t:t:'), ('listitem', b' 2', b' x'), ('emptyval', b'="1', b'="'),
         ('nilstray', b'/>', b' xmlns:xsi="http://www.w3.org/2001/XMLSchema-instance" xsi:nil="true"/>'),
         ('longtoken', b'="', b'="' + b'A' * 70000), ('refstray', b'ref="', b'ref=" '), ('dupattrns', b'<', b'<!-- -->'),
+        # the XML declaration itself (applied to the prolog)
+        ('enc_sjis', b'encoding="UTF-8"', b'encoding="shift_jis"'), ('enc_big5', b'encoding="UTF-8"', b'encoding="big5"'),
+        ('enc_utf32', b'encoding="UTF-8"', b'encoding="utf-32"'), ('enc_ebcdic', b'encoding="UTF-8"', b'encoding="cp037"'),
+        ('enc_unknown', b'encoding="UTF-8"', b'encoding="x-nope"'), ('enc_utf16', b'encoding="UTF-8"', b'encoding="UTF-16"'),
+        ('enc_empty', b'encoding="UTF-8"', b'encoding=""'), ('ver11', b'version="1.0"', b'version="1.1"'),
+        ('standalone', b'?>', b' standalone="maybe"?>'),
     )
+    PROLOG_MUTATIONS = ('enc_sjis', 'enc_big5', 'enc_utf32', 'enc_ebcdic', 'enc_unknown', 'enc_utf16', 'enc_empty',
+                        'ver11', 'standalone')
 
     def gen_lexical(self, rng):
-        key = rng.choice([k for k in self.keys if not k.startswith(('recur', 'big'))])
+        key = rng.choice([k for k in self.keys if not k.startswith(('recur', 'big', 'idfields', 'shadow'))])
         e = self.entries[key]
         di = rng.randrange(len(e.docs))
         muts = []
         data = e.docs[di].data
         body = data[data.find(b'?>') + 2:]
-        applicable = [m for m, (_, old, _new) in enumerate(self.MUTATIONS) if old in body] or [0]
+        applicable = [m for m, (nm_, old, _new) in enumerate(self.MUTATIONS)
+                      if (old in data[:data.find(b'?>') + 2] if nm_ in self.PROLOG_MUTATIONS else old in body)] or [0]
         for _ in range(rng.choice([1, 1, 2])):
             m = rng.choice(applicable)            # only mutations whose pattern occurs in this document
             muts.append([m, rng.randrange(0, max(1, min(12, body.count(self.MUTATIONS[m][1]))))])
@@ -193,6 +202,12 @@ class C11(PoolCheck):
             name, old, new = self.MUTATIONS[m]
             pos = -1
             start = data.find(b'?>') + 2
+            if name in self.PROLOG_MUTATIONS:
+                k = data.find(old)
+                if 0 <= k < start:
+                    data = data[:k] + new + data[k + len(old):]
+                    changed = True
+                continue
             for _ in range(occ + 1):
                 nxt = data.find(old, max(pos + 1, start))
                 if nxt < 0:
